@@ -106,6 +106,7 @@ type wwReqRec struct {
 	Cmd      Sx // driver command describing the request from the harness's knowledge (nil: not modelled)
 	Class    string
 	Status   int
+	InEsr    int // inputs the harness knows to be held WITH dleq{e,s,r} by the sending wallet / in the token
 }
 
 type wwTables struct {
@@ -826,6 +827,7 @@ func (h *wwHist) onRequest(wr *WireReq) {
 			h.blind = append(h.blind, fmt.Sprintf("request %d (%s/%s): input %s is a proof the harness knows nothing about", len(h.reqs)-1, h.curOp, ep, p.Secret))
 		case pi.HasR:
 			prof["esr"] = true
+			rec.InEsr++
 			h.count("inputs/harness-knowledge", "proof held WITH dleq{e,s,r}")
 		case pi.HasDLEQ:
 			prof["es"] = true
@@ -1615,6 +1617,30 @@ func (h *wwHist) evaluate(res *wwResult) {
 			res.compares = append(res.compares, wwCompare{Cmd: rec.Cmd, Impl: impl,
 				Replay: map[string]any{"history": h.id, "scenario": res.name, "request_index": rec.Idx, "api_call": rec.Op, "site": rec.Site,
 					"body": string(rec.Body), "ops": append([]string(nil), h.oplog...)}})
+		}
+	}
+	// regression scenarios of F5 must keep their teeth: the site is reached with inputs that carry dleq{e,s,r} in the wallet
+	if strings.HasPrefix(res.name, "F5-") {
+		site := strings.TrimPrefix(res.name, "F5-")
+		if site == "reclaim-is-safe" {
+			site = "swap"
+		}
+		n, withR := 0, 0
+		for _, rec := range h.reqs {
+			if rec.Site == site && len(rec.Body) > 0 {
+				n++
+				withR += rec.InEsr
+			}
+		}
+		hitsHere := 0
+		for _, f := range res.fails {
+			if strings.Contains(f.Sig, "/"+site+"/") {
+				hitsHere++
+			}
+		}
+		h.count("regression-F5", fmt.Sprintf("%s: %d request(s) at site %s with %d input(s) held WITH dleq{e,s,r}; monitor hits: %d", res.name, n, site, withR, hitsHere))
+		if n == 0 || withR == 0 {
+			h.blind = append(h.blind, fmt.Sprintf("regression scenario %s no longer reaches site %s with DLEQ-carrying inputs (requests %d, such inputs %d)", res.name, site, n, withR))
 		}
 	}
 	// how the harness knows its blinding factors
